@@ -12,16 +12,18 @@ PROP = dict(
                "schedules the real worker can produce, except inside multi-lock reads such as sum).",
     rule="rapid-generated histories of 1-30 (thorough 45) operations on a set/mutex/bool/int fragment with cache ranked|lru|none, cache size 2|3|50000, "
          "MaxOpN 2|5|12|40|10000, synchronous or queued snapshots, shard 0|1|5; distinct = hash of configuration and operation history; "
-         "non-trivial = some row was read, then written through a different write path than its previous write, then read again.",
+         "non-trivial = some row was read, then written through a different write path than its previous write, then read again. Unit fieldint: SetValue/importValue(set|clear) histories of 1-12 steps on an in-package int Field with generated (min,max), 7 columns over two shards, reads Value/Sum/Row(f==v) after every step; non-trivial = an import overwrites a stored value with one that needs fewer bits. Unit api: 1-14 (thorough 24) writes through PQL Set/Clear/ClearRow, API.Import, API.ImportRoaring, API.ImportValue on a set field and an int field over 3 shards of an in-process server, reads Row/Count/Rows/Rows(column)/ExportCSV/Row(v==x)/Sum; non-trivial = a row (or the int field) was verified, then written through a different path than its previous write.",
     assumptions=["reference model = maps in harness/pkg/_root/gfrag_machine_test.go",
                  "callers' preconditions kept: setRow only on set fragments, roaring import only on set fragments, bool rows 0/1, columns inside the shard, "
                  "int writes use the field's monotone bit depth and values that fit it, range predicates fit the bit depth, LT/GT/min/max only with depth>=1",
                  "setRow is documented to always report changed=true",
                  "int fragments are compared at the value level (value, exists row, range, sum, min, max), not at the raw bit level"],
-    tags=["gfrag"],
+    tags=["gfrag", "gfapi"],
     units=[
-        U("fragset", ".", "^TestVerifC07_FragSet$", 900, 40000, sq=5, sth=14),
-        U("fragmutex", ".", "^TestVerifC07_FragMutexBool$", 600, 25000, sq=3, sth=14),
-        U("fragbsi", ".", "^TestVerifC07_FragBSI$", 600, 25000, sq=3, sth=14),
+        U("fragset", ".", "^TestVerifC07_FragSet$", 900, 14000, sq=5, sth=14, timeout={"quick": 240, "thorough": 1500}),
+        U("fragmutex", ".", "^TestVerifC07_FragMutexBool$", 600, 8000, sq=3, sth=14, timeout={"quick": 240, "thorough": 1500}),
+        U("fragbsi", ".", "^TestVerifC07_FragBSI$", 600, 8000, sq=3, sth=14, timeout={"quick": 240, "thorough": 1500}),
+        U("fieldint", ".", "^TestVerifC07_FieldInt$", 400, 5000, sq=2, sth=8, timeout={"quick": 240, "thorough": 1500}),
+        U("api", "./server", "^TestVerifC07_API$", 160, 1500, sq=3, sth=10, timeout={"quick": 300, "thorough": 1800}),
     ],
 )
